@@ -197,7 +197,7 @@ def impl_labels(case):
 
 def gen_label_cases(rng, tier):
     n = 500 if tier == 'quick' else 8000
-    names = ['foo', 'bar', '_f', '_g', '.l', '.m', 'a', 'sp', 'org', '_fill', '.zero', 'BYTE1', 'x']
+    names = ['foo', 'bar', '_f', '_g', '.l', '.m', 'a', 'sp', 'org', '_fill', '.zero', 'BYTE1', 'x', 'A', 'Sp']
     cases = []
     for _ in range(n):
         ops = []
